@@ -67,6 +67,21 @@ bool getRemoteBit<A::CanPayload>(const A::CanPayload& p) { return p.getRtr(); }
 template <>
 bool getRemoteBit<A::CanFdPayload>(const A::CanFdPayload& p) { return p.getRrs(); }
 
+// Prior state of kinds 4 / 5: the object was not filled through the builder but constructed from a raw image (as the decoder
+// does), whose data-length field says l0 while three more bytes follow the data (the validators accept length <= available).
+// Its header equals what hdr() sets, so the builder under test must arrive at the same bytes as on a fresh object.
+template <class T, class Hdr>
+static T fromImageWithTrail(Hdr hdr, size_t l0)
+{
+    T q;
+    hdr(q);
+    Bytes pd = pat(l0, 7);
+    q.setData(pd.data(), (decltype(q.getDataLength())) l0);
+    Bytes img(q.getRawPayload(), q.getRawPayload() + q.getLength());
+    img.push_back(0xEE); img.push_back(0xDD); img.push_back(0xCC);
+    return T(img.data(), img.size());
+}
+
 // hv: header variant (bit 0: RTR/RRS bit set before the data, bit 1: ide clear / rsvd set, other flags)
 template <class T>
 static void canLike(W& w, const char* cls, uint8_t pt, uint32_t fullType, int prior, size_t len, int hv = 0)
@@ -78,11 +93,13 @@ static void canLike(W& w, const char* cls, uint8_t pt, uint32_t fullType, int pr
     };
     T p;
     hdr(p);
-    if (prior)
+    if (prior && prior < 4)
     {
         Bytes pd = pat(priorLen(prior, len, 255), 7);
         p.setData(pd.data(), (uint8_t) pd.size());
     }
+    if (prior >= 4)
+        p = fromImageWithTrail<T>(hdr, prior == 4 ? len : len / 2);
     Bytes d = pat(len, 1);
     p.setData(d.data(), (uint8_t) len);
     w.add(mc::C_TRANS, 2);
@@ -127,11 +144,13 @@ static inline void lin(W& w, int prior, size_t len)
     auto hdr = [](T& p) { p.setLinId(0x2A); p.setParityBits(2); p.setChecksum(0xC3); p.setFlags(0x0100); };
     T p;
     hdr(p);
-    if (prior)
+    if (prior && prior < 4)
     {
         Bytes pd = pat(priorLen(prior, len, 255), 7);
         p.setData(pd.data(), (uint8_t) pd.size());
     }
+    if (prior >= 4)
+        p = fromImageWithTrail<T>(hdr, prior == 4 ? len : len / 2);
     Bytes d = pat(len, 2);
     p.setData(d.data(), (uint8_t) len);
     w.add(mc::C_TRANS, 2);
@@ -165,11 +184,13 @@ static inline void eth(W& w, int prior, size_t len)
     using T = A::EthernetPayload;
     T p;
     p.setFlags(0x00C4);
-    if (prior)
+    if (prior && prior < 4)
     {
         Bytes pd = pat(priorLen(prior, len, 65529), 7);
         p.setData(pd.data(), (uint16_t) pd.size());
     }
+    if (prior >= 4)
+        p = fromImageWithTrail<T>([](T& q) { q.setFlags(0x00C4); }, prior == 4 ? len : len / 2);
     Bytes d = pat(len, 3);
     p.setData(d.data(), (uint16_t) len);
     w.add(mc::C_TRANS, 2);
@@ -430,7 +451,7 @@ static inline void runCase(W& w, const std::string& cs)
 static int runC13(mc::Run& run, const mc::Options& opt)
 {
     const bool thorough = opt.tier == "thorough";
-    run.rule = "per payload class: a first setData establishing prior contents {none, shorter, longer, same length other bytes} followed by the setData under test; CAN / "
+    run.rule = "per payload class: a prior state {none; a first setData with shorter, longer or same-length data; an object constructed from a raw image whose data is followed by trailing bytes, with the same or half the data length} followed by the setData under test; CAN / "
                "CAN-FD (x 4 header variants incl. the RTR/RRS bit set before the data) / LIN every length 0..255; Ethernet / analog boundary lengths up to 65529 (thorough: every length 0..1600); capture-module 5^4 string-length "
                "combinations x 4 vendor lengths + each of the 5 sections alone at 17 lengths around 0x7F/0x80, 0xFF/0x100, 0x17F/0x180, 0x7FFF/0x8000; interface 9 stream-id counts x 6 vendor lengths; oracle: getters, preserved header fields, independent wire image, DLC "
                "table, own validity check, real Decoder, raw bytes == fresh object; distinct = distinct (class, raw size, prior) outcomes";
@@ -452,7 +473,7 @@ static int runC13(mc::Run& run, const mc::Options& opt)
                 for (int hv = 0; hv < 4; ++hv)
                     cases.push_back(ofmt("cls=%s;prior=%d;len=%zu;hv=%d", c, prior, len, hv));
         }
-        std::vector<size_t> big = {0, 1, 2, 3, 7, 8, 255, 256, 1499, 1500, 65528, 65529};
+        std::vector<size_t> big = {0, 1, 2, 3, 7, 8, 255, 256, 1499, 1500, 65526, 65528, 65529};
         if (thorough)
             for (size_t l = 0; l <= 1600; ++l)
                 big.push_back(l);
@@ -472,6 +493,19 @@ static int runC13(mc::Run& run, const mc::Options& opt)
                         for (int d = 0; d < 5; ++d)
                             for (size_t v = 0; v < 4; ++v)
                                 cases.push_back(ofmt("cls=cm;prior=%d;s=%d,%d,%d,%d;v=%zu", prior, a, b, c, d, v));
+    }
+    // prior state constructed from a raw image with trailing bytes (kinds 4: same data length as the new data, 5: half of it)
+    for (int prior = 4; prior <= 5; ++prior)
+    {
+        for (size_t len = 0; len <= 255; ++len)
+        {
+            cases.push_back(ofmt("cls=lin;prior=%d;len=%zu", prior, len));
+            for (const char* c : {"can", "canfd"})
+                for (int hv = 0; hv < 4; ++hv)
+                    cases.push_back(ofmt("cls=%s;prior=%d;len=%zu;hv=%d", c, prior, len, hv));
+        }
+        for (size_t len : {(size_t) 0, (size_t) 1, (size_t) 2, (size_t) 3, (size_t) 7, (size_t) 8, (size_t) 255, (size_t) 256, (size_t) 1499, (size_t) 1500, (size_t) 65526})
+            cases.push_back(ofmt("cls=eth;prior=%d;len=%zu", prior, len));
     }
     // capture-module sections at the byte / sign boundaries of the 16-bit length prefix (declared length = characters + NUL,
     // padded to even): one section at a time
